@@ -138,7 +138,7 @@ pub fn check_position(p: &Pos, every: usize, rng: &mut gen::R, rep: &mut Report)
 
 /// real-world corpus: the SAN tokens of the book games
 fn book_tokens(ctx: &Ctx, plies: usize, rep: &mut Report) {
-    let games = match pgn::read_dir("/repo/book") {
+    let games = match pgn::read_dir(&format!("{}/book", std::env::var("VERIF_REPO").unwrap_or_else(|_| "/repo".into()))) {
         Ok(g) => g,
         Err(e) => {
             rep.inconclusive(&format!("book directory unreadable: {}", e));
